@@ -26,7 +26,7 @@ CHECKS = {
          "Recipes rich in maps (Dicts with colliding qualified keys, nested Dicts, Tags incl. case-variant keys, ImportNames/Anon tables, import scenarios) are rebuilt and rendered many times and in 4/16 child processes; all outputs must be byte-identical. Map orders cannot be forced; the evidence reports the distinct orders observed.",
          TB + " Go's randomised map iteration provides the order diversity.", "5 C07"),
  "C08": ("exploration", "runtime monitor: offline checker over recorded render histories (repeat-equal, name-monotone, declared invariants)",
-         "Random histories of File.Render / Statement.RenderWithFile / Group.RenderWithFile (each done twice), additions, later ImportName/ImportAlias (incl. dot), Anon, prefix toggles; every event is recorded and the log judged offline.",
+         "Random histories of File.Render / File.GoString / Statement.RenderWithFile / Group.RenderWithFile (each done twice), renders whose writer fails on purpose, additions, later ImportName/ImportNames/ImportAlias (incl. dot), Anon, prefix toggles; every event is recorded and the log judged offline (3,000 / 100,000 histories; the thorough tier runs under the race detector).",
          TB + " Anon on an already referenced path is excluded, as the statement says.", "5 C08"),
  "C11": ("exploration", "runtime monitor: go/types constant evaluation of rendered literals (value and type) over exhaustive and boundary value domains",
          "Exhaustive bool/8-bit (and 16-bit in thorough); limits, 2^k+-1, 10^k+-1 and random values for wider integers; floats: +-0, subnormals, extremes, every decade +-1ulp, integral values of every decimal length, random bits; complex pairs. Rendered in batches via Lit, Lit+NoFormat and LitFunc, type-checked with go/types, compared with v and its type.",
@@ -44,10 +44,10 @@ CHECKS = {
          "Random maps of 0-8 keys over the conventional key alphabet to arbitrary byte strings (quotes, backquotes, newlines, invalid UTF-8); nil/empty maps.",
          TB, "5 C17"),
  "C19": ("exploration", "runtime monitor: import declarations and doc comment groups of the parsed output over the complete cgo combination matrix",
-         "All 12,960 combinations of {Qual C, Anon C before/after preambles} x preamble subsets/orders x other-import shapes x prefix x hints naming \"C\", formatted and NoFormat — enumerated completely in both tiers.",
+         "All 34,800 combinations of {Qual C, Anon C before/after preambles} x subsets/orders of 5 preamble kinds x 10 other-import shapes (incl. paths sorting before \"C\") x prefix x 5 hint kinds naming \"C\", formatted and NoFormat — enumerated completely in both tiers.",
          TB, "5 C19"),
  "C20": ("exploration", "runtime monitor: offline checker over recorded clone/append histories against a list model (live and snapshot views admitted)",
-         "Random histories over a tree of cloned Statement handles with capacity-aware appends; after every step every handle is rendered (Render and inside a File) and tokenised.",
+         "Random histories over a tree of cloned Statement handles (incl. clones of still-empty originals) with capacity-aware appends; after every step every handle is rendered (Render and inside a File) and tokenised; an unmodified clone must equal its original at every step (2,500 / 30,000 histories; the thorough tier runs under the race detector).",
          TB, "5 C20"),
  "C01": ("exploration", "runtime monitor: per-program round trip — go/ast transcribed into DSL calls, rendered by the real code, re-parsed, normalised AST compared with the source AST declaration by declaration",
          "Every file of the vendored corpus, /repo, GOROOT/src (sample in quick, all in thorough), go1.26 src and the module cache (thorough, two translator seeds, ~100k files / ~2M declarations) plus generated programs; choice among equivalent documented spellings is randomised. Sampled over programs, nothing is proved.",
@@ -59,7 +59,7 @@ CHECKS = {
          "Comment injection at every between-items and end-of-item position of Block/Defs/Struct/Interface/case bodies/File of real and generated programs (22 text shapes); file-level scenarios: headers x package comments (incl. empty entries) x canonical paths.",
          TB + " Text containment is judged on the NoFormat rendering (gofmt rewrites doc comments itself).", "5 C15"),
  "C18": ("exploration", "runtime monitor: import spec and qualifier of rendered files vs. the package clause parsed from GOROOT/src/<path>; the gennames tool of the tree is run and its table checked the same way",
-         "Every importable std package directory (297 on this toolchain) alone and with prefix, every ordered pair/group sharing a declared name or last path element, all at once in two orders; gennames run offline, every table entry checked, and the cases repeated with ImportNames(table). Enumerated completely in both tiers.",
+         "Every importable std package directory (297 on this toolchain) alone, with prefix, under ImportAlias(last element) and ImportAlias(arbitrary), after a same-named foreign package; every ordered pair/group sharing a declared name or last path element; all at once in two orders; gennames run offline, every table entry checked, and the cases repeated with ImportNames(table). Enumerated completely in both tiers (2,298 cases).",
          TB + " GOROOT/src of the installed toolchain is the ground truth.", "5 C18"),
  "C02": ("exploration", "runtime monitor: twin builds (formatted vs NoFormat) compared through go/format, go/parser on every output, per-case recover; random compositions over the API table by reflection, and damaged real programs",
          "Random compositions over every construct (valid and nonsensical) under random File settings, one third grammar-biased; formatted output must equal gofmt(raw twin), errors iff gofmt rejects, nothing written on error, no panic; fragments through Statement/Group Render/RenderWithFile/GoString; recovered contract panics before judged renders; real programs with one damaged list.",
@@ -68,7 +68,7 @@ CHECKS = {
          "400/3,000 jobs (import scenarios, random compositions, map-rich recipes, corpus programs) in 3/8 permutations, build-then-render and re-render passes, 3/8 concurrent rounds on 16 goroutines under the race detector, 6/12 fresh processes running the whole list in their own order, 40/400 jobs alone in a fresh process; 600/8,000 sharing sequences.",
          TB + " The race detector reports only races that are executed; interleavings are sampled.", "5 C09"),
  "C10": ("fault_enumeration", "runtime monitor: instrumented io.Writer (calls, bytes, programmable full/partial failure), probe nodes that fail mid-render, filesystem snapshots (content hash, mode, mtime, inode) around Save",
-         "For every tree the complete fault x entry-point matrix: formatter error, render error at node i, writer error on write k (full and partial), and for Save: new / existing longer / existing empty file, directory target, missing parent, component is a file, name too long, /dev/full. Trees (real programs, every third damaged, and random compositions) are sampled.",
+         "For every tree the complete fault x entry-point matrix: formatter error, render error at node i, writer error on write k (reporting 0, half or all bytes written), and for Save: new / existing longer / existing empty file, directory target, missing parent, component is a file, name too long, /dev/full. Trees (real programs, every third damaged, and random compositions) are sampled.",
          TB + " Running as root: an unwritable directory is realised by the other failing targets.", "5 C10"),
 }
 
